@@ -2,8 +2,8 @@
    gap, no duplicate, in file order, under ANY schedule of ANY number of concurrent writers, and
    across an authority restart at any point.  Statements only; proofs are in
    Proofs/ContOrderProofs.v (invariant Model/ContInv.v over the transition system Model/ContStore.v). *)
-From RipV Require Import Base.Prelude Model.Frames Model.Log Model.ContStore Model.ContInv
-  Proofs.LogProofs Proofs.ContStoreProofs Proofs.ContOrderProofs.
+From RipV Require Import Base.Prelude Model.Frames Model.Log Model.ContStore Model.ContInv Model.SessGuard
+  Gen.AppendOps Proofs.LogProofs Proofs.ContStoreProofs Proofs.ContOrderProofs Proofs.SessGuardProofs.
 
 (* "0,1,2,.. no gap, no duplicate, in file order for every stream" and "a full validated replay
    succeeds" are the same statement: rip-log's validator decides Valid *)
@@ -131,6 +131,73 @@ Theorem c01_two_runs_one_session_refuted :
   /\ validate (s_log (run [0; 1] (spawn w_s6_actors empty_state))) = false.
 Proof. exact (conj (proj1 w_s6_hyps) (conj (proj2 w_s6_hyps) w_s6_invalid)). Qed.
 Print Assumptions c01_two_runs_one_session_refuted.
+
+(* ---- the single writer of a session stream: concurrent inputs to ONE session ----
+   A session stream is numbered by a run-local counter, so its order rests on one run per session id; that
+   is what the started-guard of SessionEngine::spawn_session provides.  Any number n of clients post input
+   to session `sid` at the same instant, their guard steps interleaved by any schedule `gsched`; every
+   accepted input spawns a run (`session_prog ts` on `sid`, numbering from 0); next to them any other
+   well-formed actors; any schedule of everything on any store meeting the store invariant: every stream
+   stays 0,1,2,.. - for every guard that is ONE atomic read-modify-write ... *)
+Theorem c01_session_single_writer :
+  forall (gk : sguard) (n : nat) (gsched : list nat) (sid : N) (ts : list etype)
+         (others : list (list mstep * N)) (sched : list N) (st : state),
+  sg_atomic gk = true ->
+  SInv st -> forallb is_sess ts = true -> progs_wf others ->
+  sess_fresh st ((session_prog ts, sid) :: others) -> sess_distinct ((session_prog ts, sid) :: others) ->
+  Valid (s_log (run sched (spawn (session_actors gk n gsched sid ts ++ others) st))).
+Proof. exact session_single_writer. Qed.
+Print Assumptions c01_session_single_writer.
+
+(* ... in particular for the guard read from crates/ripd/src/runner.rs on this run (Gen/AppendOps.v:
+   gen_sess_guard, obligation gen_sess_guard_atomic) *)
+Theorem c01_session_single_writer_as_built :
+  forall (n : nat) (gsched : list nat) (sid : N) (ts : list etype)
+         (others : list (list mstep * N)) (sched : list N) (st : state),
+  SInv st -> forallb is_sess ts = true -> progs_wf others ->
+  sess_fresh st ((session_prog ts, sid) :: others) -> sess_distinct ((session_prog ts, sid) :: others) ->
+  validate (s_log (run sched (spawn (session_actors gen_sess_guard n gsched sid ts ++ others) st))) = true.
+Proof.
+  exact (fun n gsched sid ts others sched st =>
+           session_single_writer_validates gen_sess_guard n gsched sid ts others sched st gen_sess_guard_atomic).
+Qed.
+Print Assumptions c01_session_single_writer_as_built.
+
+(* at most one of the concurrent inputs is accepted, exactly one as soon as one caller takes a step *)
+Theorem c01_session_one_run :
+  forall (gk : sguard) (n : nat) (gsched : list nat), sg_atomic gk = true ->
+  (accepted_n (snd (grun gk n gsched)) <= 1)%nat
+  /\ (forall a, (a < n)%nat -> In a gsched -> accepted_n (snd (grun gk n gsched)) = 1%nat).
+Proof.
+  exact (fun gk n gsched H => conj (atomic_at_most_one gk n gsched H)
+                                   (fun a Ha Hin => atomic_exactly_one gk n gsched a H Ha Hin)).
+Qed.
+Print Assumptions c01_session_one_run.
+
+(* REFUTED for check-then-set (`started.load()` .. spawn .. `started.store(true)`): two clients, schedule
+   load / load / spawn+store / spawn+store: both inputs are accepted, the two runs both number from 0, the
+   session stream reads 0,0,1,1,2,2 and the validator rejects the log - although every other hypothesis of
+   c01_session_single_writer holds; with the atomic guard the same schedule accepts one and validates *)
+Theorem c01_session_single_writer_check_then_set_refuted :
+  sg_atomic SgCheckThenSet = false
+  /\ (SInv empty_state /\ forallb is_sess w_cts_run = true
+      /\ sess_fresh empty_state [(session_prog w_cts_run, 7)] /\ sess_distinct [(session_prog w_cts_run, 7)])
+  /\ accepted_n (snd (grun SgCheckThenSet 2 w_cts_gsched)) = 2%nat
+  /\ validate w_cts_log = false
+  /\ map seq w_cts_log = [0; 0; 1; 1; 2; 2]
+  /\ accepted_n (snd (grun SgAtomicRmw 2 w_cts_gsched)) = 1%nat.
+Proof.
+  exact (conj eq_refl (conj w_cts_hyps (conj w_cts_accepts_two (conj w_cts_invalid (conj w_cts_seqs (proj1 w_cts_atomic_valid)))))).
+Qed.
+Print Assumptions c01_session_single_writer_check_then_set_refuted.
+
+(* non-vacuity: four clients on one session next to a thread creation, another run and a task pump meet
+   the hypotheses, and one schedule of theirs writes 7 frames on 4 streams *)
+Example c01_session_hypotheses_satisfiable :
+  SInv empty_state /\ forallb is_sess w_cts_run = true /\ progs_wf w_sg_others
+  /\ sess_fresh empty_state ((session_prog w_cts_run, 7) :: w_sg_others)
+  /\ sess_distinct ((session_prog w_cts_run, 7) :: w_sg_others).
+Proof. exact w_sg_hyps. Qed.
 
 (* non-vacuity: five concurrent actors on the empty store (create a thread, post to the newest listed
    thread, a run, two pumps of one task) meet every hypothesis, and one of their schedules writes 8
